@@ -1,5 +1,6 @@
 from dataclasses import dataclass, field
 from functools import cached_property, partial, partialmethod
+import re
 
 
 @dataclass(init=False)
